@@ -197,6 +197,10 @@ fn mk_cmd(args: Vec<ArgSpec>, cm: &str, width: usize) -> CmdSpec {
     c.subs.push(vis);
     c.subs.push(hid);
     c.subs.push(vis2);
+    // a hidden subcommand that has nothing but its name
+    let mut bare = CmdSpec::new("hidbare");
+    bare.hide = true;
+    c.subs.push(bare);
     c
 }
 
@@ -304,7 +308,7 @@ fn check(spec: &CmdSpec, shapes: &[(String, String)], cm: &str) -> Vec<(String, 
             continue;
         }
         // hidden markers nowhere
-        for marker in ["hidcmd", "hidalias", "ABOUTHIDDEN", "HIDDENPV", "PVHELPhidden"] {
+        for marker in ["hidcmd", "hidalias", "hidbare", "ABOUTHIDDEN", "HIDDENPV", "PVHELPhidden"] {
             if t.contains(marker) {
                 bad.push((format!("a hidden item appears in the output ({})", if marker.contains("PV") { "hidden possible value" } else { "hidden subcommand" }), format!("{}: found {:?}", r.name, marker)));
             }
